@@ -390,10 +390,23 @@ class C09World(WalletWorld):
             return
         h = self.H(wi)
         acc = sorted(wi.accounts)[ch.index('acc', len(wi.accounts))]
-        ok, pm = self.call(wi, 'public_master', lambda: h.public_master(account_id=acc).wif)
+        via = ch.weighted('export_via', [('wallet', 3), ('hdkey', 2)])
+        shared = {'litecoin': {'p2sh-segwit', 'segwit'}, 'litecoin_testnet': {'legacy', 'p2sh-segwit', 'segwit'}}
+        if via == 'hdkey' and wi.wt in shared.get(self.network, set()):
+            via = 'wallet'      # a bare extended key with a shared prefix does not say which family it belongs to
+        if via == 'wallet':
+            ok, pm = self.call(wi, 'public_master', lambda: h.public_master(account_id=acc).wif)
+        else:
+            # the account public key exported from the master key object (any witness type can be asked of one master
+            # key); the watch-only wallet is then created from that extended key alone - its prefix says what it is
+            def export():
+                from bitcoinlib.keys import HDKey
+                mk = HDKey(self.xprv(wi.ref['master']), network=self.network)
+                return mk.public_master(account_id=acc, witness_type=wi.wt).wif()
+            ok, pm = self.call(wi, 'hdkey_public_master', export)
         if not ok:
             return
-        w.op('watch_only_wallet', source=wi.name, account=acc)
+        w.op('watch_only_wallet', source=wi.name, account=acc, via=via)
         acc_node = wi.ref['master'].derive("m/%d'/%d'/%d'" % (PURPOSE[wi.wt], self.coin, acc))
         want = acc_node.neuter().ser_public(rcodec.NETWORKS[self.network]['xkeys'][FAMILY[wi.wt]][0])
         if pm != want:
@@ -404,8 +417,9 @@ class C09World(WalletWorld):
         wo.ref = {'account_pub': acc_node.neuter(), 'master': wi.ref['master'], 'account': acc}
         wo.explicit = set()
         wo.accounts = {acc}
+        kw = {'witness_type': wi.wt} if via == 'wallet' else {}
         ok, ww = self.call(wo, 'create_watch', lambda: self.BW.Wallet.create(
-            wo.name, keys=pm, network=self.network, witness_type=wi.wt, db_uri=wo.db, db_cache_uri=wo.cache))
+            wo.name, keys=pm, network=self.network, db_uri=wo.db, db_cache_uri=wo.cache, **kw))
         if not ok:
             w.probe('watch_only_create_failed')
             return
